@@ -58,6 +58,8 @@ func DecodeDecrypt(
 		if err != nil {
 			return nil, errors.Wrapf(err, "IKE decode decrypt")
 		}
+	} else if ikeMsg.NextPayload == uint8(message.TypeSK) {
+		return nil, errors.Errorf("IKE decode decrypt: header announces an encrypted payload but there is none")
 	}
 
 	return ikeMsg, nil
